@@ -172,6 +172,9 @@ Ltac incl_tac :=
   let z := fresh "z" in let Hz := fresh "Hz" in
   intros z Hz; unfold inl_ in Hz |- *; simpl in Hz |- *; repeat rewrite in_app_iff in Hz; repeat rewrite in_app_iff; simpl in Hz |- *; tauto.
 
+Lemma body_strs_loc m b : body_strs (loc m b) = body_strs b.
+Proof. induction b; cbn [loc body_strs]; try reflexivity; congruence. Qed.
+
 Lemma comp_ok A : forall n b cnt code k, comp n b cnt = Some (code, k) -> Forall (stmt_ok (inl_ (body_strs b)) A) code.
 Proof.
   induction n as [|n IH]; intros b cnt code k H; [discriminate|].
@@ -215,6 +218,15 @@ Proof.
       - eapply stmts_ok_mono; [|eapply IH; exact E1]. exact Hi.
       - eapply stmts_ok_mono; [|eapply IH; exact E2]. incl_tac. }
     destruct x as [g ga| | | |l|x1 x2|x1 x2|c t|x1]; try (apply (PL _ (fun _ _ _ _ _ _ => Logic.I) H); incl_tac).
+    destruct (tcut c).
+    { match type of H with match comp n ?X ?c0 with _ => _ end = _ => destruct (comp n X c0) as [[c1 k1]|] eqn:E1; [|discriminate] end.
+      destruct (comp n y k1) as [[c2 k2]|] eqn:E2; [|discriminate].
+      injection H as <- _. constructor; [|constructor]. constructor.
+      constructor.
+      - constructor. eapply stmts_ok_mono; [|eapply IH; exact E1].
+        intros z Hz. unfold inl_ in Hz |- *. cbn [body_strs] in Hz |- *. rewrite body_strs_loc in Hz.
+        repeat rewrite in_app_iff in Hz. repeat rewrite in_app_iff. cbn [In] in Hz. tauto.
+      - eapply stmts_ok_mono; [|eapply IH; exact E2]. incl_tac. }
     match type of H with match comp n ?X ?c0 with _ => _ end = _ => destruct (comp n X c0) as [[c1 k1]|] eqn:E1; [|discriminate] end.
     injection H as <- _. constructor; [|constructor]. constructor.
     eapply stmts_ok_mono; [|eapply IH; exact E1]. incl_tac.
